@@ -40,6 +40,29 @@ Proof.
 Qed.
 Print Assumptions C11_partial_send_must_resume.
 
+(* protocol v5 send path: send_msg hands the whole run of segments of a frame to push() in ONE call, so for any segment
+   encoder, any MAX_PAYLOAD_LENGTH and any interleaving the drained wire is a concatenation of complete segment runs, and
+   each thread's part of it is the encoding of a prefix of the frames it sent, in its order *)
+Theorem C11_send_v5_segments_contiguous : forall enc maxp c frames ops, mode_ok (p_mode c) -> p_keep_rest c = true ->
+  let s := run c (send_prog enc maxp frames) ops in
+  drained s ->
+  wire s = concat (map snd (order s))
+  /\ forall t, exists k, thread_part t (order s) = map (encode_v5_or_nil enc maxp) (firstn k (frames t)).
+Proof. exact send_v5_main. Qed.
+Print Assumptions C11_send_v5_segments_contiguous.
+
+(* ... whereas pushing every segment on its own lets another thread's request land between the segments of a large one *)
+Theorem C11_segment_per_push_refuted :
+  let enc := fun (sc : bool) (p : msg) => (if sc then 1%Z else 0%Z) :: p in
+  let frames := fun t : nat => match t with O => [[7; 7; 7]%Z] | S O => [[9]%Z] | _ => [] end in
+  exists ops, let s := run (mkCfg Whole (fun _ => true) true) (send_prog_per_segment enc 2 frames) ops in
+    drained s /\ wire s = enc false [7; 7]%Z ++ encode_v5_or_nil enc 2 [9]%Z ++ enc false [7]%Z.
+Proof.
+  exists [Push 0; Push 1; Push 0; RunReady; RunReady; RunReady; SendPart 9; SendPart 9; SendPart 9].
+  cbv. auto.
+Qed.
+Print Assumptions C11_segment_per_push_refuted.
+
 (* out_buffer_size = 0 is not a usable configuration: push() raises for every non-empty message *)
 Theorem C11_zero_buffer_raises : forall m, (0 < length m)%nat -> chunks 0 m = None.
 Proof. exact chunks_zero_raises. Qed.
